@@ -12,6 +12,8 @@ import hv
 TRANSPORT_MUX = {"tcp", "unix", "websocket", "udp"}      # one multiplexed connection per client
 
 PANIC_VALUES_QUICK = ["string", "error", "custom", "nil"]
+PLUGINS_QUICK = ["under:ratelimiter", "under:concurrentlimiter", "via:circuitbreaker", "via:cluster-forking", "via:oneway"]
+PLUGINS_MORE = ["under:log", "under:timeout-disabled", "via:cluster-failover", "via:loadbalance", "via:log"]
 HOSTILE_QUICK = ["hostile-error-nilptr", "hostile-error-panics"]
 HOSTILE_MORE = ["hostile-error-runtime", "hostile-stringer-panics", "hostile-error-pointer-panics", "hostile-deep-format"]
 MAX_REQUEST_LENGTH = 2048      # what the harness sets Service.MaxRequestLength to in the oversize-request cells
@@ -22,7 +24,14 @@ PANIC_VALUES_MORE = ["int", "pointer", "wrapped-error", "nil-error-pointer", "fu
 def variants(transport, side, fault, tier):
     q = tier == "quick"
     if fault == "service-panic":
-        return PANIC_VALUES_QUICK if q else PANIC_VALUES_QUICK + PANIC_VALUES_MORE
+        # the plugin dimension: the same panic below every standard plugin that wraps the execution on the service side
+        # (under:) and seen by a client through every standard plugin that wraps the call on the client side (via:)
+        plug = PLUGINS_QUICK if q else PLUGINS_QUICK + PLUGINS_MORE
+        return (PANIC_VALUES_QUICK if q else PANIC_VALUES_QUICK + PANIC_VALUES_MORE) + plug
+    if fault == "panic-under-timeout-plugin":
+        return ["string"] if q else PANIC_VALUES_QUICK + ["runtime-index", "hostile-error-panics", "self-hostile"]
+    if fault == "subscriber-panic":
+        return ["string"] if q else PANIC_VALUES_QUICK + ["runtime-nilmap"]
     if fault == "hostile-panic-value":
         return HOSTILE_QUICK if q else HOSTILE_QUICK + HOSTILE_MORE
     if fault == "nested-hostile-panic-value":
@@ -172,7 +181,7 @@ def agrees(case, model, seen, o=None, m=None):
     return False
 
 
-FAULT_MUST_ERR = {"service-panic", "hostile-panic-value", "nested-hostile-panic-value", "invoke-plugin-panic", "io-plugin-panic", "missing-method-panic", "decode-error",
+FAULT_MUST_ERR = {"panic-under-timeout-plugin", "service-panic", "hostile-panic-value", "nested-hostile-panic-value", "invoke-plugin-panic", "io-plugin-panic", "missing-method-panic", "decode-error",
                   "decode-panic", "oversize-request", "oversize-response", "bad-payload", "provider-panic"}
 
 
@@ -211,6 +220,8 @@ def property_oracle(case, o):
         if ch["inflight_same"] not in ("ok", "n/a"):
             return ("within-limit-disturbs", "a message of %d encoded bytes (limit %d) cost the connection: %s" % (sz[1], sz[2], ch["inflight_same"]))
         return None
+    if case.get("variant") == "via:oneway":
+        return None if f == "ok" else ("oneway-call-reports", "a oneway call returned %s" % f)
     if case["fault"] in FAULT_MUST_ERR and not f.startswith("err:"):
         return ("faulty-call-no-error", "the faulty call did not end in an error: %s" % f)
     return None
@@ -218,7 +229,13 @@ def property_oracle(case, o):
 
 def key_of(case, symptom):
     # the reverse provider's handling of a provided function is the same code on every transport
-    tr = "reverse-provider" if (case["side"] == "client" and case["fault"] in ("provider-panic", "hostile-panic-value", "nested-hostile-panic-value")) else case["transport"]
+    tr = case["transport"]
+    if case["side"] == "client" and case["fault"] in ("provider-panic", "hostile-panic-value", "nested-hostile-panic-value"):
+        tr = "reverse-provider"
+    elif case["fault"] == "subscriber-panic":
+        tr = "push-prosumer"          # the same code on every transport
+    elif case["fault"] == "panic-under-timeout-plugin":
+        tr = "execute-timeout-plugin"
     return "%s:%s:%s:%s" % (tr, case["side"], case["fault"], symptom)
 
 
@@ -416,6 +433,8 @@ def run_corpus(ctx):
     cases = []
     for i, f in enumerate(files):
         r = json.load(open(f))
+        if r.get("status") != "fixed":
+            continue        # an open finding is reported through its cell, not as a regression of a repair
         c = dict(r["case"])
         c["id"] = 800000 + i
         cases.append((f, r, c))
@@ -452,7 +471,9 @@ def run_corpus(ctx):
 
 
 def witness_name(c):
-    return "C11_contained_refuted_%s_%s_%s" % (c["transport"], c["side"], c["fault"].replace("-", "_"))
+    return {"panic-under-timeout-plugin": "C11_contained_refuted_panic_under_timeout_plugin",
+            "subscriber-panic": "C11_contained_refuted_subscriber_panic"}.get(
+        c["fault"], "C11_contained_refuted_%s_%s_%s" % (c["transport"], c["side"], c["fault"].replace("-", "_")))
 
 
 def legacy_probe(ctx, names):
